@@ -132,6 +132,14 @@ def run(ctx):
             for d in md:
                 hops.append(f'mice.enc {d} 16 {hexs(b"forty bytes of payload, more or less....")}')
         ctx.both(hops)
+    # WriteTo observes: the bundle (incl. URL objects shared between the primary / manifest URL and an exchange) is the same afterwards,
+    # and a second WriteTo gives the same bytes (both checked inside the harness op)
+    fr = []
+    for v, pu, mu in (('b2', b'https://example.com/#top', None), ('b2', b'https://example.com/p?q#f', None), ('b1', b'https://example.com/', b'https://example.com/m#frag'), ('b1', b'https://example.com/#top', None)):
+        exs_ = [exch(pu, 200, H[:2], b'body'), exch(b'https://example.com/other', 200, H[:1], b'o')] + ([exch(mu, 200, [], b'm')] if mu else [])
+        fr.append(f'bundle.write {bundle(v, pu, mu, None, exs_)}')
+        fr.append(f'bundle.write.plain {bundle(v, pu, mu, None, exs_)}')
+    ctx.both(fr)
     # object history: one Signer used first with certificate A, then (Certs replaced) with certificate B
     rot = []
     for v in ('b1', 'b2', 'b3'):
